@@ -585,7 +585,11 @@ PASS_SCHEMAS = [
     ("delete", "del x", []),
     ("raise", "raise __E1", []),
     ("assert", "assert __E1, __E2", []),
-    ("lambda", "k = lambda a: __E1", [("k", None, None, "lambda a: __VE1", True)]),
+    # a lambda / nested coroutine is a scope of its own, like a nested def: a walrus, a yield or a return inside it belongs to IT,
+    # so its body is left exactly as it is (an event for it would be "an event for anything else")
+    ("lambda", "k = lambda a: __E1", [("k", None, None, "lambda a: __E1", True)]),
+    ("lambda-with-walrus", "k = lambda: (v := __E1)", [("k", None, None, "lambda: (v := __E1)", True)]),
+    ("nested-async-def", "async def g(a):\n    x = __E1\n    return x", []),
     ("comprehension", "r = [__E1 for i in __E2 if __E3]", [("r", None, None, "[__VE1 for i in __VE2 if __VE3]", True)]),
 ]
 
@@ -850,6 +854,33 @@ class K:
     def method(self, v):
         w = v * 2
         return w
+
+EVALS = []
+
+def fresh(tag):
+    EVALS.append(tag)
+    return len(EVALS)
+
+def with_defaults(x=fresh("x"), *, k=fresh("k")):
+    r = x * 10 + k
+    return r
+
+def factory():
+    local_default = 5
+    def inner(x: int = local_default):
+        q = x + 1
+        return q
+    return inner
+
+def siblings():
+    n = 0
+    def inc():
+        nonlocal n
+        n += 1
+    def get():
+        v = n
+        return v
+    return inc, get
 '''
 
 
@@ -895,11 +926,15 @@ def u_transform_orchestration(c):
         spec = importlib.util.spec_from_file_location(os.path.basename(p)[:-3], p)
         mod = importlib.util.module_from_spec(spec)
         spec.loader.exec_module(mod)
-        which = c.choose(6, "function")
-        fn = [mod.plain, mod.outer(5), mod.gen, mod.annotated, mod.K.method, mod.outer2(3)][which]
-        label = ["plain", "closure", "generator", "annotated", "method", "closure-with-defaults"][which]
+        which = c.choose(9, "function")
+        inc, get = mod.siblings()
+        fn = [mod.plain, mod.outer(5), mod.gen, mod.annotated, mod.K.method, mod.outer2(3), mod.with_defaults, mod.factory(), get][which]
+        label = ["plain", "closure", "generator", "annotated", "method", "closure-with-defaults", "default-expressions", "defaults-from-enclosing-scope",
+                 "closure-rebound-by-sibling"][which]
         samples = {"plain": [(1,), (1, 5)], "closure": [(4,)], "generator": [], "annotated": [(3,), (3, 4, 5)], "method": [(None, 2)],
-                   "closure-with-defaults": [(1,), (1, 9), (1, 9, 8)]}[label]
+                   "closure-with-defaults": [(1,), (1, 9), (1, 9, 8)], "default-expressions": [(), (7,)], "defaults-from-enclosing-scope": [(), (3,)],
+                   "closure-rebound-by-sibling": [()]}[label]
+        evals_before = list(mod.EVALS)
         ksamples = {"closure-with-defaults": [{}, {"bias": 1}, {"tag": "q", "bias": 0}], "annotated": [{}, {"flag": True, "extra": 1}]}.get(label, [{}])
 
         class NProceed:
@@ -920,23 +955,34 @@ def u_transform_orchestration(c):
         proceed = NProceed
         everything = bool(c.choose(2, "all-variables"))
         Element = it.get_global("ptera.selector", "Element")
-        first_local = {"plain": "c", "closure": "y", "generator": "i", "annotated": "z", "method": "w", "closure-with-defaults": "z"}[label]
+        first_local = {"plain": "c", "closure": "y", "generator": "i", "annotated": "z", "method": "w", "closure-with-defaults": "z",
+                       "default-expressions": "r", "defaults-from-enclosing-scope": "q", "closure-rebound-by-sibling": "v"}[label]
         to_instrument = True if everything else [it.call(Element, [], dict(name=first_local, capture=first_local))]
         glb = fn.__globals__
         before_name = glb.get(fn.__name__, "<<missing>>")
-        code_before, defaults_before, cells_before = fn.__code__, fn.__defaults__, [cl.cell_contents for cl in (fn.__closure__ or ())]
+        code_before, defaults_before, cells_before = fn.__code__, fn.__defaults__, list(fn.__closure__ or ())
+        kwdefaults_before, annotations_before = fn.__kwdefaults__, dict(fn.__annotations__)
         st, new = run(it, it.get_global(TR, "transform"), [fn, proceed], dict(to_instrument=to_instrument))
         c.prove(f"{label}/transform-does-not-raise", st == "ok", note=repr(new) if st != "ok" else "")
         if st != "ok":
             return
         c.prove(f"{label}/returns-a-new-function-with-the-same-name-and-defaults", new is not fn and callable(new) and new.__name__ == fn.__name__
-                and new.__defaults__ == defaults_before and new.__kwdefaults__ == fn.__kwdefaults__)
+                and new.__defaults__ == defaults_before and new.__kwdefaults__ == kwdefaults_before,
+                note=f"defaults {new.__defaults__!r}/{new.__kwdefaults__!r} vs {defaults_before!r}/{kwdefaults_before!r}")
+        # the default and annotation expressions belong to the ORIGINAL definition: building the instrumented function evaluates
+        # nothing of the user's program a second time (no side effect, no different value, no NameError for enclosing locals)
+        c.prove(f"{label}/default-and-annotation-expressions-not-evaluated-again", list(mod.EVALS) == evals_before, note=f"{mod.EVALS} vs {evals_before}", only=["C01"])
+        c.prove(f"{label}/same-annotations", dict(getattr(new, "__annotations__", {})) == annotations_before, only=["C01"])
         c.prove(f"{label}/original-function-untouched", fn.__code__ is code_before and fn.__defaults__ == defaults_before
                 and not hasattr(fn, "__ptera_info__"))
-        c.prove(f"{label}/global-binding-of-the-name-restored", glb.get(fn.__name__, "<<missing>>") is before_name or
-                (before_name == "<<missing>>" and glb.get(fn.__name__) is None))
-        c.prove(f"{label}/closure-cells-preserved", [cl.cell_contents for cl in (new.__closure__ or ())] == cells_before
+        c.prove(f"{label}/global-binding-of-the-name-restored", glb.get(fn.__name__, "<<missing>>") is before_name,
+                note=f"{fn.__name__!r} was {before_name!r}, now {glb.get(fn.__name__, '<<missing>>')!r}")
+        # the rebuilt function shares the CELLS of the original (not a snapshot of their contents): a later re-binding of a closure
+        # variable by a sibling closure is seen by both
+        c.prove(f"{label}/closure-cells-shared", len(new.__closure__ or ()) == len(cells_before) and all(a is b for a, b in zip(new.__closure__ or (), cells_before))
                 and new.__code__.co_freevars == fn.__code__.co_freevars)
+        if label == "closure-rebound-by-sibling":
+            inc()
         # behaviour on samples: with a transparent frame the rebuilt function returns what the original returns.  The rebuilt code is
         # run by CPython, so the helper objects transform() put into the globals (created by the interpreter) are replaced by the
         # real ones from the imported library
@@ -973,10 +1019,12 @@ def u_transform_orchestration(c):
             import textwrap as _tw
 
             src = _tw.dedent(_inspect.getsource(fn))
-            wrapped = ("def __o():\n    k = 0\n" + "\n".join("    " + ln for ln in src.splitlines())) if label.startswith("closure") else src
+            is_closure = bool(fn.__closure__)
+            binds = "".join(f"    {nm} = 0\n" for nm in fn.__code__.co_freevars)
+            wrapped = ("def __o():\n" + binds + "\n".join("    " + ln for ln in src.splitlines())) if is_closure else src
             top = symtable.symtable(wrapped, "<s>", "exec")
             fs = top.get_children()[0]
-            if label.startswith("closure"):
+            if is_closure:
                 fs = fs.get_children()[0]
             want = {}
             for sym in fs.get_symbols():
